@@ -175,15 +175,17 @@ def splitOn (c : Nat) : Bytes → List Bytes
       | p :: ps => (b :: p) :: ps
       | [] => [[b]]
 
+/-- the optional leading `+` accepted by `u32::from_str` -/
+def stripPlus : Bytes → Bytes
+  | 0x2B :: r => r
+  | s => s
+
 /-- `str::parse::<u32>()`: an optional `+`, then one or more ASCII digits, value below 2^32 -/
 def parseU32 (s : Bytes) : Option Nat :=
-  let digits := match s with
-    | 0x2B :: r => r
-    | _ => s
-  if digits.isEmpty || digits.any (fun b => !Digits.isDigit b) then none
-  else
-    let v := digits.foldl (fun acc b => acc * 10 + (b - 48)) 0
-    if v < 4294967296 then some v else none
+  if (stripPlus s).isEmpty || (stripPlus s).any (fun b => !Digits.isDigit b) then none
+  else if (stripPlus s).foldl (fun acc b => acc * 10 + (b - 48)) 0 < 4294967296 then
+    some ((stripPlus s).foldl (fun acc b => acc * 10 + (b - 48)) 0)
+  else none
 
 /-- `str::find(c)` for an ASCII `c`: byte index of the first occurrence -/
 def findByte (c : Nat) : Bytes → Option Nat
@@ -293,8 +295,10 @@ def specPair (g e : Option Nat) : Option Tag :=
 /-- the tag a text denotes, if it is exactly one of `(GGGG,EEEE)`, `GGGG,EEEE`, `GGGGEEEE` with
 hexadecimal digits of either case -/
 def specTagOfText : Bytes → Option Tag
-  | [0x28, a, b, c, d, 0x2C, e, f, g, h, 0x29] => specPair (specHex4 a b c d) (specHex4 e f g h)
-  | [a, b, c, d, 0x2C, e, f, g, h] => specPair (specHex4 a b c d) (specHex4 e f g h)
+  | [p, a, b, c, d, q, e, f, g, h, r] =>
+    if p = 0x28 ∧ q = 0x2C ∧ r = 0x29 then specPair (specHex4 a b c d) (specHex4 e f g h) else none
+  | [a, b, c, d, q, e, f, g, h] =>
+    if q = 0x2C then specPair (specHex4 a b c d) (specHex4 e f g h) else none
   | [a, b, c, d, e, f, g, h] => specPair (specHex4 a b c d) (specHex4 e f g h)
   | _ => none
 
